@@ -3,7 +3,7 @@ EXTENDS Config, Json, IOUtils
 Tr == ndJsonDeserialize(IOEnv.TRACE_FILE)
 VARIABLES l, viol
 Init == l = 1 /\ viol = <<>>
-Next == /\ l <= Len(Tr) /\ l' = l + 1 /\ viol' = Check(Tr[l].c, Tr[l].o)
+Next == /\ l <= Len(Tr) /\ l' = l + 1 /\ viol' = IF Tr[l].c.kind = "proc" THEN CheckProc(Tr[l].c, Tr[l].o) ELSE Check(Tr[l].c, Tr[l].o)
 Report == viol = <<>> \/ PrintT("VIOL " \o ToJson([line |-> l - 1, v |-> viol]))
 Consumed == TLCGet("stats").diameter - 1 = Len(Tr)
 =============================================================================
